@@ -654,8 +654,7 @@ fn master<H: Harness>(h: &H, args: &Args) -> i32 {
     let mut children = Vec::new();
     for w in 0..workers {
         let out = outdir.join(format!("w{}.json", w));
-        let log = std::fs::File::create(outdir.join(format!("w{}.log", w))).unwrap();
-        let log2 = log.try_clone().unwrap();
+        let log2 = std::fs::File::create(outdir.join(format!("w{}.log", w))).unwrap();
         let child = std::process::Command::new(&exe)
             .arg(h.property())
             .arg("worker")
@@ -671,7 +670,9 @@ fn master<H: Harness>(h: &H, args: &Args) -> i32 {
             .env("TZ", "UTC")
             .env("VERIF_ROOT", &root)
             .stdin(std::process::Stdio::null())
-            .stdout(log)
+            // The code under test prints to stdout (println! in config.rs); only
+            // stderr is kept.
+            .stdout(std::process::Stdio::null())
             .stderr(log2)
             .spawn();
         match child {
